@@ -76,6 +76,11 @@ class FT(ct.BaseTemplateFile):
 
 
 def prepare(cfg):
+    if cfg.get('loader'):
+        if cfg.get('mutant'):
+            _mutate_loader(cfg['mutant'])
+        STATE['gen_load'] = _loader_generators()
+        return
     if cfg.get('mutant'):
         _mutate(cfg['mutant'])
     st = S.stepped(FT, ['cook_check', 'cook'], {}, owner={'cook_check': ct.BaseTemplateFile, 'cook': ct.BaseTemplate})
@@ -148,6 +153,124 @@ def threads(s0: bool, s1: bool, s2: bool, s3: bool, s4: bool, s5: bool, s6: bool
         step('b', gb)
     wb = want + ':m' if CFG.get('second') == 'macro' else want
     ok = res['a'] == ('ok', want) and res['b'] == ('ok', wb)
+    return _res(ok)
+
+
+# ---- two threads through a shared loader ---------------------------------------------------------------
+class LoadedStub:
+    """stands for the template class: what a thread gets back is identified by the file it was made for"""
+    made = []
+
+    def __init__(self, spec, search_path=None, package_name=None, **kw):
+        self.spec = spec
+        LoadedStub.made.append(self)
+
+    def render(self):
+        return 'rendered:' + self.spec
+
+
+def _loader_generators():
+    from chameleon import loader as ld
+    wrapper = inspect_static(ld.TemplateLoader, 'load')
+    raw = wrapper.__closure__[0].cell_contents
+    exists = {'/sp/one/a.pt': False, '/sp/two/a.pt': True, '/sp/one/b.pt': True, '/sp/two/b.pt': True}
+
+    class _P:
+        def __getattr__(self, n):
+            import os
+            return getattr(os.path, n)
+
+        @staticmethod
+        def exists(p):
+            return exists.get(p, False)
+
+    class _OS:
+        path = _P()
+    ld.os = _OS()          # native calls (the check after the threads) see the same model directory
+    s_raw = S.stepped_function(raw, 'load_raw', {'os': ld.os})
+    s_wrap = S.stepped_function(wrapper, 'load', {'S_load_raw': s_raw, 'MISSING': ld}, calls={'func': 'S_load_raw'})
+    return s_wrap
+
+
+def inspect_static(cls, name):
+    import inspect
+    fn = inspect.getattr_static(cls, name)
+    return getattr(fn, '__func__', fn)
+
+
+def _mutate_loader(name):
+    from chameleon import loader as ld
+    if name == 'registry_placeholder':
+        # "claim" the registry slot before the template exists
+        def cache(func):
+            def load(self, *args, **kwargs):
+                template = self.registry.get(args, ld)
+                if template is ld:
+                    self.registry[args] = None
+                    self.registry[args] = template = func(self, *args, **kwargs)
+                return template
+            load.__verif_source__ = '''def load(self, *args, **kwargs):
+    template = self.registry.get(args, MISSING)
+    if template is MISSING:
+        self.registry[args] = None
+        self.registry[args] = template = func(self, *args, **kwargs)
+    return template
+'''
+            return load
+        ld.MISSING = ld
+        raw = ld.TemplateLoader.load.__closure__[0].cell_contents
+        ld.TemplateLoader.load = cache(raw)
+    else:
+        raise KeyError(name)
+
+
+def use_loader(gen_load, loader, spec):
+    t = yield from gen_load(loader, spec, LoadedStub)
+    return t.render()
+
+
+def loader_threads(s0: bool, s1: bool, s2: bool, s3: bool, s4: bool, s5: bool, s6: bool, s7: bool, s8: bool,
+                   s9: bool, s10: bool, s11: bool, s12: bool, s13: bool, s14: bool, s15: bool) -> bool:
+    """
+    pre: CFG.get('k', 16) >= 16 or not (s14 or s15)
+    pre: CFG.get('k', 16) >= 14 or not (s12 or s13)
+    pre: CFG.get('k', 16) >= 12 or not (s10 or s11)
+    post: _
+    """
+    from chameleon import loader as ld
+    gen_load = STATE['gen_load']
+    loader = ld.TemplateLoader(search_path=['/sp/one', '/sp/two'])
+    same = CFG.get('same', True)
+    specs = ('a.pt', 'a.pt') if same else ('a.pt', 'b.pt')
+    want = ('rendered:/sp/two/a.pt', 'rendered:/sp/two/a.pt' if same else 'rendered:/sp/one/b.pt')
+    ga = use_loader(gen_load, loader, specs[0])
+    gb = use_loader(gen_load, loader, specs[1])
+    res = {}
+
+    def step(key, gen):
+        if key in res:
+            return
+        r = S.advance(gen, 1)
+        if r[0] == 'done':
+            res[key] = ('ok', r[1])
+        elif r[0] == 'raised':
+            res[key] = ('exc', type(r[1]).__name__)
+    for _ in range(CFG.get('lead', 0)):
+        step('a', ga)
+    for choice in (s0, s1, s2, s3, s4, s5, s6, s7, s8, s9, s10, s11, s12, s13, s14, s15):
+        if choice:
+            step('a', ga)
+        else:
+            step('b', gb)
+    while 'a' not in res:
+        step('a', ga)
+    while 'b' not in res:
+        step('b', gb)
+    ok = res['a'] == ('ok', want[0]) and res['b'] == ('ok', want[1])
+    # afterwards the loader serves one instance per name
+    if ok:
+        t1 = loader.load(specs[0], LoadedStub)
+        ok = t1 is not None and t1 is loader.load(specs[0], LoadedStub)
     return _res(ok)
 
 
